@@ -661,8 +661,7 @@ impl<C: CrcCalculator> Encapsulator<C> {
             gse_len = gse_len_min as u16;
         } else {
             // first packet
-            let min_header_len =
-                min_header_len + FRAG_ID_LEN + TOTAL_LENGTH_LEN + total_len_extensions;
+            let min_header_len = min_header_len + FRAG_ID_LEN + TOTAL_LENGTH_LEN;
 
             // check the buffer size
             // if it cannot write at least more than the header
@@ -716,7 +715,8 @@ impl<C: CrcCalculator> Encapsulator<C> {
                 };
 
                 // define encap status
-                let pkt_len = FIRST_FRAG_LEN + label_len + pdu_len_encapsulated;
+                let pkt_len =
+                    FIRST_FRAG_LEN + label_len + total_len_extensions + pdu_len_encapsulated;
                 EncapStatus::FragmentedPkt(pkt_len as u16, context_frag)
             }
             _ => EncapStatus::CompletedPkt(gse_len + FIXED_HEADER_LEN as u16),
